@@ -122,9 +122,18 @@ Fixpoint all_partials (refs : list dref) (ps : list piece) : list (list piece) :
       flat_map (fun h => map (cons h) tails) heads
   end.
 
+Definition dref_eqb (a b : dref) : bool :=
+  String.eqb (r_abs a) (r_abs b) && String.eqb (r_rel a) (r_rel b) && Bool.eqb (r_sub a) (r_sub b) &&
+  String.eqb (r_val a) (r_val b).
+Fixpoint nodupb (refs : list dref) : bool :=
+  match refs with [] => true | r :: rs => negb (existsb (dref_eqb r) rs) && nodupb rs end.
+Definition others (r : dref) (refs : list dref) : list dref := filter (fun x => negb (dref_eqb x r)) refs.
+
+(* for every reference r: whatever tokens the OTHER references have already replaced, r's spelling
+   that is looked for occurs only as the tokens equal to it *)
 Definition separatedb (refs : list dref) (ps : list piece) : bool :=
-  forallb (fun r => nomixb r ps) refs &&
-  forallb (fun qs => forallb (fun r => condb r qs) refs) (all_partials refs ps).
+  forallb (fun r => nomixb r ps) refs && nodupb refs &&
+  forallb (fun r => forallb (fun qs => condb r qs) (all_partials (others r refs) ps)) refs.
 
 Definition unambiguousb (refs : list dref) (ps : list piece) : bool :=
   forallb (fun p => match p with
